@@ -68,50 +68,52 @@ func init() {
 		"(*sync.Once).Do":         extOnceDo,
 
 		// ---- strings / bytes intrinsics
-		"(*strings.Builder).String":            extBuilderString,
-		"(*strings.Builder).copyCheck":         func(fr *frame, a []value) value { return nil },
-		"internal/bytealg.MakeNoZero":          extMakeNoZero,
-		"internal/bytealg.IndexByteString":     extIndexByte,
-		"internal/bytealg.IndexByte":           extIndexByte,
-		"strings.IndexByte":                    extIndexByte,
-		"bytes.IndexByte":                      extIndexByte,
-		"internal/bytealg.CountString":         extCountByte,
-		"internal/bytealg.Count":               extCountByte,
-		"internal/bytealg.Equal":               extBytesEqual,
-		"bytes.Equal":                          extBytesEqual,
-		"strings.Index":                        extStringsIndex,
-		"strings.Contains":                     func(fr *frame, a []value) value { return binop(token.GEQ, nil, extStringsIndex(fr, a), 0) },
-		"strings.HasPrefix":                    extHasPrefix,
-		"strings.HasSuffix":                    extHasSuffix,
-		"internal/stringslite.Index":           extStringsIndex,
-		"internal/stringslite.HasPrefix":       extHasPrefix,
-		"internal/stringslite.HasSuffix":       extHasSuffix,
-		"internal/stringslite.IndexByte":       extIndexByte,
-		"unicode/utf8.DecodeRuneInString":      extDecodeRuneInString,
-		"unicode/utf8.DecodeRune":              extDecodeRuneInString,
-		"internal/abi.NoEscape":                func(fr *frame, a []value) value { return a[0] },
-		"internal/race.Enabled":                func(fr *frame, a []value) value { return false },
-		"runtime.KeepAlive":                    func(fr *frame, a []value) value { return nil },
-		"runtime.SetFinalizer":                 func(fr *frame, a []value) value { return nil },
-		"runtime.Gosched":                      func(fr *frame, a []value) value { return nil },
-		"(*sync/atomic.Int32).Load":            extAtomicLoad,
-		"(*sync/atomic.Int32).Store":           extAtomicStore,
-		"(*sync/atomic.Uint32).Load":           extAtomicLoad,
-		"(*sync/atomic.Uint32).Store":          extAtomicStore,
-		"(*sync/atomic.Int64).Load":            extAtomicLoad,
-		"(*sync/atomic.Int64).Store":           extAtomicStore,
-		"(*sync/atomic.Bool).Load":             extAtomicLoadBool,
-		"(*sync/atomic.Bool).Store":            extAtomicStoreBool,
-		"sync/atomic.LoadUint32":               func(fr *frame, a []value) value { return *a[0].(*value) },
-		"sync/atomic.StoreUint32":              func(fr *frame, a []value) value { *a[0].(*value) = a[1]; return nil },
-		"sync/atomic.LoadInt32":                func(fr *frame, a []value) value { return *a[0].(*value) },
-		"sync/atomic.StoreInt32":               func(fr *frame, a []value) value { *a[0].(*value) = a[1]; return nil },
-		"sync/atomic.AddInt32":                 extAtomicAdd,
-		"sync/atomic.AddInt64":                 extAtomicAdd,
-		"sync/atomic.AddUint32":                extAtomicAdd,
-		"sync/atomic.AddUint64":                extAtomicAdd,
-		"sync/atomic.CompareAndSwapInt32":      extAtomicCAS,
-		"sync/atomic.CompareAndSwapUint32":     extAtomicCAS,
+		"(*strings.Builder).String":        extBuilderString,
+		"(*strings.Builder).copyCheck":     func(fr *frame, a []value) value { return nil },
+		"internal/bytealg.MakeNoZero":      extMakeNoZero,
+		"internal/bytealg.IndexByteString": extIndexByte,
+		"internal/bytealg.IndexByte":       extIndexByte,
+		"strings.IndexByte":                extIndexByte,
+		"bytes.IndexByte":                  extIndexByte,
+		"internal/bytealg.CountString":     extCountByte,
+		"internal/bytealg.Count":           extCountByte,
+		"internal/bytealg.Equal":           extBytesEqual,
+		"bytes.Equal":                      extBytesEqual,
+		"strings.Index":                    extStringsIndex,
+		"strings.Contains":                 func(fr *frame, a []value) value { return binop(token.GEQ, nil, extStringsIndex(fr, a), 0) },
+		"strings.HasPrefix":                extHasPrefix,
+		"strings.HasSuffix":                extHasSuffix,
+		"internal/stringslite.Index":       extStringsIndex,
+		"internal/stringslite.HasPrefix":   extHasPrefix,
+		"internal/stringslite.HasSuffix":   extHasSuffix,
+		"internal/stringslite.IndexByte":   extIndexByte,
+		"unicode/utf8.DecodeRuneInString":  extDecodeRuneInString,
+		"unicode/utf8.DecodeRune":          extDecodeRuneInString,
+		"internal/stringslite.Clone":       func(fr *frame, a []value) value { return a[0] },
+		"strings.Clone":                    func(fr *frame, a []value) value { return a[0] },
+		"internal/abi.NoEscape":            func(fr *frame, a []value) value { return a[0] },
+		"internal/race.Enabled":            func(fr *frame, a []value) value { return false },
+		"runtime.KeepAlive":                func(fr *frame, a []value) value { return nil },
+		"runtime.SetFinalizer":             func(fr *frame, a []value) value { return nil },
+		"runtime.Gosched":                  func(fr *frame, a []value) value { return nil },
+		"(*sync/atomic.Int32).Load":        extAtomicLoad,
+		"(*sync/atomic.Int32).Store":       extAtomicStore,
+		"(*sync/atomic.Uint32).Load":       extAtomicLoad,
+		"(*sync/atomic.Uint32).Store":      extAtomicStore,
+		"(*sync/atomic.Int64).Load":        extAtomicLoad,
+		"(*sync/atomic.Int64).Store":       extAtomicStore,
+		"(*sync/atomic.Bool).Load":         extAtomicLoadBool,
+		"(*sync/atomic.Bool).Store":        extAtomicStoreBool,
+		"sync/atomic.LoadUint32":           func(fr *frame, a []value) value { return *a[0].(*value) },
+		"sync/atomic.StoreUint32":          func(fr *frame, a []value) value { *a[0].(*value) = a[1]; return nil },
+		"sync/atomic.LoadInt32":            func(fr *frame, a []value) value { return *a[0].(*value) },
+		"sync/atomic.StoreInt32":           func(fr *frame, a []value) value { *a[0].(*value) = a[1]; return nil },
+		"sync/atomic.AddInt32":             extAtomicAdd,
+		"sync/atomic.AddInt64":             extAtomicAdd,
+		"sync/atomic.AddUint32":            extAtomicAdd,
+		"sync/atomic.AddUint64":            extAtomicAdd,
+		"sync/atomic.CompareAndSwapInt32":  extAtomicCAS,
+		"sync/atomic.CompareAndSwapUint32": extAtomicCAS,
 	} {
 		externals[k] = v
 	}
@@ -219,8 +221,8 @@ func extRunUntilBlocked(fr *frame, a []value) (res value) {
 			panic(r)
 		}
 	}()
-	depth := fr.i.depth
-	defer func() { fr.i.depth = depth }()
+	depth, sl := fr.i.depth, len(fr.i.stack)
+	defer func() { fr.i.depth = depth; fr.i.stack = fr.i.stack[:sl]; fr.i.panicStack = nil }()
 	call(fr.i, fr, token.NoPos, a[0], nil)
 	return nil
 }
@@ -257,8 +259,8 @@ func extSettle(fr *frame, a []value) value {
 					panic(r)
 				}
 			}()
-			depth := fr.i.depth
-			defer func() { fr.i.depth = depth }()
+			depth, sl := fr.i.depth, len(fr.i.stack)
+			defer func() { fr.i.depth = depth; fr.i.stack = fr.i.stack[:sl]; fr.i.panicStack = nil }()
 			call(fr.i, fr, th.pos, th.fn, th.args)
 		}()
 	}
